@@ -16,15 +16,16 @@ open Biscuit Biscuit.Printer Biscuit.Render
 /-! ## First tokens -/
 
 /-- A term never renders to nothing, and its first token is a literal, a variable, a
-parameter or `[`. -/
+parameter, `[` or the sign `-` of an integer literal. -/
 def termStart : Tok → Bool
-  | .param _ | .var _ | .int _ | .str _ | .date _ | .hex _ | .bool _ | .punct '[' => true
+  | .param _ | .var _ | .int _ | .str _ | .date _ | .hex _ | .bool _ | .punct '[' | .op "-" => true
   | _ => false
 
 theorem renderTermToks_head (t : PTerm) :
     ∃ x xs, renderTermToks t = x :: xs ∧ termStart x = true := by
   cases t with
   | set elts => exact ⟨.punct '[', _, by rw [renderTermToks_set]; rfl, rfl⟩
+  | negInt ds => exact ⟨.op "-", [.int ds], rfl, by decide⟩
   | _ => exact ⟨_, [], rfl, rfl⟩
 
 /-- First token of an expression: what a term starts with, `(` or `!`. -/
